@@ -1237,7 +1237,7 @@ func (self *LockManager) ProcessRecoverLockData(lock *Lock) {
 			self.currentData.isAof = false
 		}
 	case protocol.LOCK_DATA_COMMAND_TYPE_INCR:
-		if recoverData == nil {
+		if recoverData == nil || recoverData.GetData() == nil {
 			self.currentData = NewLockManagerDataUnsetData(false)
 		} else {
 			incrValue := recoverValue.(int64)
@@ -1263,7 +1263,7 @@ func (self *LockManager) ProcessRecoverLockData(lock *Lock) {
 			}
 		}
 	case protocol.LOCK_DATA_COMMAND_TYPE_APPEND:
-		if recoverData == nil {
+		if recoverData == nil || recoverData.GetData() == nil {
 			self.currentData = NewLockManagerDataUnsetData(false)
 		} else {
 			posValue := recoverValue.(uint64)
